@@ -145,6 +145,10 @@ def run_reads(rec, acct, tf, ex, clause):
 
 def check(case, rec):
     from nptdms import TdmsFile, TdmsWriter, RootObject, ChannelObject
+    if 'bytes' in case:
+        return check_bytes(case, rec)
+    if 'atheris_campaign' in case:
+        return
     _limit_memory()
     fs0 = case['fs']
     fault = case['fault']
@@ -378,6 +382,149 @@ def _writer_histories(rec, acct, TdmsFile, TdmsWriter, RootObject, ChannelObject
         rec.violation('caller_stream_closed', 'TdmsWriter closed a stream supplied by the caller')
 
 
+# ---------------------------------------------------------------------------------------------
+# byte-level cases (atheris campaign and its Hypothesis fallback)
+
+def bytes_case(data):
+    data = bytes(data)
+    mode = data[0] % 4
+    return {'bytes': data[1:], 'index_mode': ['none', 'same_bytes_as_index', 'TDSh_twin', 'garbage'][mode]}
+
+
+def check_bytes(case, rec):
+    """arbitrary bytes as x.tdms (+ an index file derived from them): descriptor accounting over the read-side APIs"""
+    from nptdms import TdmsFile
+    _limit_memory()
+    data = bytes(case['bytes'])
+    mode = case['index_mode']
+    rec.label('bytes_case', 'index=' + mode)
+    gc_was = gc.isenabled()
+    gc.disable()
+    try:
+        with scratch_dir() as d:
+            acct = Acct(rec, d)
+            path = os.path.join(d, 'x.tdms')
+            with open(path, 'wb') as f:
+                f.write(data)
+            if mode == 'same_bytes_as_index':
+                index = data
+            elif mode == 'TDSh_twin':
+                index = data.replace(b'TDSm', b'TDSh')
+            elif mode == 'garbage':
+                index = data[::-1]
+            else:
+                index = None
+            if index is not None:
+                with open(path + '_index', 'wb') as f:
+                    f.write(index)
+            _histories(rec, acct, TdmsFile, path, data, None, d, False)
+            if index is not None:
+                _index_stream_histories(rec, acct, TdmsFile, index, d)
+            rec.stat('api_calls_raised', acct.raised)
+            rec.nontrivial(acct.raised > 0 or index is not None)
+    finally:
+        if gc_was:
+            gc.enable()
+        gc.collect()
+
+
+def seed_corpus():
+    """a few small valid files from the independent encoder"""
+    import struct
+    p, q = make_path('g', 'a'), make_path('g', 's')
+    files = []
+    seg1 = {'be': False, 'interleaved': False,
+            'entries': [{'path': '/', 'hdr': 'nodata', 'props': [['name', 'str', 'x'], ['n', 'i32', 3]]},
+                        {'path': p, 'hdr': 'full', 'type': 'i32', 'n': 2}], 'active': [[p, 'i32', 2]], 'nchunks': 2,
+            'data': {p: [struct.pack('<2i', 1, 2), struct.pack('<2i', 3, 4)]}}
+    seg2 = {'be': True, 'interleaved': True,
+            'entries': [{'path': p, 'hdr': 'full', 'type': 'i32', 'n': 2},
+                        {'path': make_path('g', 'b'), 'hdr': 'full', 'type': 'f64', 'n': 2}],
+            'active': [[p, 'i32', 2], [make_path('g', 'b'), 'f64', 2]], 'nchunks': 1,
+            'data': {p: [struct.pack('<2i', 5, 6)], make_path('g', 'b'): [struct.pack('<2d', 1.5, 2.5)]}}
+    seg3 = {'be': False, 'interleaved': False,
+            'entries': [{'path': q, 'hdr': 'full', 'type': 'str', 'n': 2, 'total': 8 + 3}],
+            'active': [[q, 'str', 2]], 'nchunks': 1, 'data': {q: [['ab', 'c']]}}
+    seg4 = {'be': False, 'interleaved': False, 'meta': False, 'entries': [], 'active': [[q, 'str', 2]], 'nchunks': 1,
+            'data': {q: [['xy', 'z']]}}
+    for segs in ([seg1], [seg1, seg2], [seg3, seg4], [seg1, seg3]):
+        blob, idx, _l = encode_file({'segments': segs}, with_index=True)
+        files.append(b'\x00' + blob)
+        files.append(b'\x02' + blob)
+    return files
+
+
+def _atheris_job(runs_per_shard, with_corpus):
+    def fn(shard, nshards, seed, rec):
+        import subprocess
+        import sys as _sys
+        import json as _json
+        from vf.files import scratch_root
+        from vf.model import from_json
+        work = os.path.join(scratch_root(), 'fuzz_%d_%d' % (os.getpid(), shard))
+        corpus = os.path.join(work, 'corpus')
+        os.makedirs(corpus)
+        if with_corpus:
+            for i, blob in enumerate(seed_corpus()):
+                with open(os.path.join(corpus, 'seed%d' % i), 'wb') as f:
+                    f.write(blob)
+        out = os.path.join(work, 'result.json')
+        env = dict(os.environ)
+        env['VF_SCRATCH'] = os.path.join(work, 'scratch')
+        os.makedirs(env['VF_SCRATCH'])
+        cmd = [_sys.executable, '-W', 'ignore', '-m', 'vf.fuzz_c20', out, corpus, '-runs=%d' % runs_per_shard,
+               '-seed=%d' % (seed % (2 ** 31 - 1) + 1), '-max_len=600', '-timeout=60', '-artifact_prefix=%s/' % work,
+               '-print_final_stats=0', '-verbosity=0']
+        r = subprocess.run(cmd, env=env, capture_output=True, text=True, cwd=os.path.dirname(os.path.dirname(__file__)),
+                           timeout=3600)
+        execs = 0
+        if os.path.exists(out + '.stats'):
+            execs = _json.load(open(out + '.stats'))['stats']['execs']
+        if os.path.exists(out):
+            doc = _json.load(open(out))
+            execs = doc['stats']['execs']
+            for k, v in doc['violations'].items():
+                rec.begin(from_json(_json.dumps(v['case'])))
+                rec.nontrivial(True)
+                rec.violation(v['clause'], v['message'])
+                rec.end()
+        elif r.returncode != 0 and 'C20 oracle violated' not in (r.stderr or ''):
+            tail = (r.stderr or '')[-600:]
+            if 'ModuleNotFoundError' in tail and 'atheris' in tail:
+                rec.stat('atheris_unavailable')
+                return
+            raise RuntimeError('atheris campaign failed (rc=%d): %s' % (r.returncode, tail))
+        # the campaign itself counts as evaluations; one synthetic case documents it
+        rec.evaluations += max(execs - 1, 0)
+        rec.begin({'atheris_campaign': {'shard': shard, 'runs': runs_per_shard, 'execs': execs, 'corpus': with_corpus}})
+        rec.nontrivial(True)
+        rec.stat('atheris_execs', execs)
+        rec.label('atheris_campaign')
+        rec.end()
+    return fn
+
+
+@st.composite
+def byte_cases(draw):
+    """Hypothesis fallback / complement: seed files with drawn splices, flips and truncations"""
+    seeds = seed_corpus()
+    blob = bytearray(draw(st.sampled_from(seeds)))
+    for _ in range(draw(st.integers(0, 4))):
+        kind = draw(st.integers(0, 3))
+        if not blob:
+            break
+        pos = draw(st.integers(0, len(blob) - 1))
+        if kind == 0:
+            blob[pos] ^= 1 << draw(st.integers(0, 7))
+        elif kind == 1:
+            blob[pos:pos + draw(st.integers(1, 8))] = draw(st.binary(max_size=8))
+        elif kind == 2:
+            del blob[pos:]
+        else:
+            blob[pos:pos] = draw(st.sampled_from([b'TDSm', b'\xff\xff\xff\xff', b'\x00\x00\x00\x00', b'\x69\x12\x00\x00']))
+    return bytes_case(bytes([draw(st.integers(0, 3))]) + bytes(blob[1:]))
+
+
 FAULTS = ['none', 'none', 'bad_tag', 'truncate', 'flip', 'unknown_type', 'dim2', 'bad_path', 'same_unseen', 'type_change',
           'index_len', 'huge_count']
 
@@ -400,5 +547,13 @@ def cases(draw):
 
 def jobs(tier):
     if tier == 'quick':
-        return [Job('fault_cases', 'hyp', cases, n=2400)]
-    return [Job('fault_cases', 'hyp', cases, n=60000)]
+        return [Job('fault_cases', 'hyp', cases, n=2000),
+                Job('mutated_bytes', 'hyp', byte_cases, n=800, check=check_bytes),
+                Job('atheris_seeded', 'custom', _atheris_job(400, True), shards=4,
+                    note='libFuzzer campaign, 4 x 400 runs from 8 valid seed files')]
+    return [Job('fault_cases', 'hyp', cases, n=60000),
+            Job('mutated_bytes', 'hyp', byte_cases, n=30000, check=check_bytes),
+            Job('atheris_seeded', 'custom', _atheris_job(12500, True), shards=12,
+                note='libFuzzer campaign, 12 x 12500 runs from 8 valid seed files'),
+            Job('atheris_empty_corpus', 'custom', _atheris_job(12500, False), shards=4,
+                note='libFuzzer campaign, 4 x 12500 runs from an empty corpus')]
